@@ -766,7 +766,11 @@ def reactor_clauses(patterns, products, kw, mols, rng, builtin=False, limit=20):
     try:
         base = run([m.copy() for m in mols])
     except Exception as e:
-        return [('reactor-raises', f'{type(e).__name__}: {e}')]
+        # a template that builds an impossible product raises from kekule()/thiele(); only for the built-in collections on
+        # valence-valid reactants is that a failure of the property
+        if builtin and all(not m.check_valence() for m in mols):
+            return [('valence-valid', f'reactor raised {type(e).__name__}: {e}')]
+        return []
     for rxn in base:
         nums = [n for p in rxn.products for n in p]
         if len(nums) != len(set(nums)):
@@ -1060,7 +1064,9 @@ def numbering_clauses(q, r, mol, kw=None, rng=None, rounds=2):
         prods = list(itertools.islice(t(mol), 50))
         base = sorted({sig_str(p) for p in prods})
     except Exception as e:
-        return [('numbering-independence', f'transformer raised {type(e).__name__}: {e}')]
+        # the template makes a chemically impossible product here (e.g. kekule() fails): not a numbering question, but the
+        # renumbered input must then fail the same way
+        prods, base = [], 'raises:' + type(e).__name__
     # the canonical strings of the products themselves must be renumbering-stable, otherwise the comparison says nothing
     for p in prods[:6]:
         if sig_str(molgen.renumber(rng, p)[0]) != sig_str(p):
@@ -1072,11 +1078,10 @@ def numbering_clauses(q, r, mol, kw=None, rng=None, rounds=2):
         try:
             other = sorted({sig_str(p) for p in itertools.islice(t(m2), 50)})
         except Exception as e:
-            bad.append(('numbering-independence', f'renumbered input raised {type(e).__name__}: {e}'))
-            continue
+            other = 'raises:' + type(e).__name__
         if other != base:
             cl = 'numbering-independence'
-            if kw.get('automorphism_filter', True):
+            if kw.get('automorphism_filter', True) and isinstance(base, list) and isinstance(other, list):
                 # Is the difference explained by the documented automorphism filter ("skip matches to the same atoms":
                 # which of the matches onto one atom set survives depends on the enumeration order)? Then every product
                 # of either numbering is among the products of the unfiltered enumeration, which itself is
